@@ -917,6 +917,42 @@ fn gen_c06(r: &mut Rng, seed: u64, idx: u64) -> Scenario {
         opts.crash = Some(crash_spec(r, tid, rsp, exe.base + exe.image.text_off + 0x300));
         tags.push(if ti >= 20 { "crash-late-thread".into() } else { "crash".into() });
     }
+    if !sweep && n > 1 && r.chance(1, 8) {
+        // a thread whose stack pointer has run into its guard page, with something unusual below or
+        // around that page
+        let ti = r.range(1, n as u64 - 1) as usize;
+        let (ss, _sl) = stack_of(&b, tid_of(ti));
+        let guard = ss - 0x1000;
+        let free = |b: &Built, lo: u64, hi: u64| !b.world.regions.iter().any(|g| g.start < hi && lo < g.end());
+        if b.world.regions.iter().any(|g| g.start == guard && g.perms == "---p" && g.len == 0x1000) {
+            if r.coin() {
+                // a library loaded after the thread was created sits directly below the guard page
+                // (the kernel places it there); the guard page then looks like the linker's reserved
+                // range behind an executable mapping
+                let lo = guard - 0x3000;
+                if free(&b, lo, guard) {
+                    b.world.regions.push(RegionSpec { start: lo, len: 0x1000, perms: "r--p".into(), offset: 0, inode: 7373, name: B::s("/usr/lib/libloadedlater.so.1"), deleted: false, content: Content::Pattern(r.next()) });
+                    b.world.regions.push(RegionSpec { start: lo + 0x1000, len: 0x2000, perms: "r-xp".into(), offset: 0x1000, inode: 7373, name: B::s("/usr/lib/libloadedlater.so.1"), deleted: false, content: Content::Pattern(r.next()) });
+                    b.world.regions.sort_by_key(|g| g.start);
+                    b.world.threads[ti].regs[R_RSP] = guard + r.below(512) * 8;
+                    tags.push("library-below-guard-page".into());
+                }
+            } else {
+                // a guard region of 4 MiB (pthread_attr_setguardsize), stack pointer more than the
+                // guard distance below the stack
+                let lo = ss - 0x40_0000;
+                if free(&b, lo, guard) {
+                    if let Some(g) = b.world.regions.iter_mut().find(|g| g.start == guard) {
+                        g.start = lo;
+                        g.len = 0x40_0000;
+                    }
+                    b.world.regions.sort_by_key(|g| g.start);
+                    b.world.threads[ti].regs[R_RSP] = ss - 0x10_1000 - 0x1000 * r.range(1, 600) + r.below(512) * 8;
+                    tags.push("deep-in-large-guard".into());
+                }
+            }
+        }
+    }
     if !sweep && r.chance(1, 10) {
         // a thread running on a stack below the executable (MAP_32BIT / fixed low mapping)
         let ti = r.below(n as u64) as usize;
